@@ -38,7 +38,7 @@ def _anchors():
         import os
         p = os.path.join(os.path.dirname(os.path.dirname(os.path.abspath(__file__))), "tables", "anchors.json")
         t = json.load(open(p))
-        _ANCHORS = (set(t["no_inline"]), set(t["known_functions"]))
+        _ANCHORS = (set(t["no_inline"]), set(t["known_functions"]), set(t.get("known_records", [])))
     return _ANCHORS
 
 
@@ -51,8 +51,10 @@ def inlinable(g):
     were written against (tables/anchors.json: known_functions) - i.e. a helper that a later change introduced."""
     if g is None or g.invalid or not g.d.get("inrepo", True) or g.entry is None:
         return False
-    if g.kind in ("ctor", "dtor", "conv"):
+    if g.kind in ("ctor", "dtor"):
         return False
+    if g.kind == "conv" and (not g.rec or g.rec in _anchors()[2]):
+        return False         # conversion operators are inlined only for classes introduced after the reference tree
     if g.kind == "op" and not g.is_lambda:
         return False         # overloaded operators of value-like classes (*h, h->, a == b) keep their operator spelling
     if len(g.stmts) > MAX_STMTS:
@@ -61,8 +63,17 @@ def inlinable(g):
         return True          # only reached for a direct call of a closure defined in the calling function, see _call_sites
     if not g.file.startswith(GMLC_PREFIX()):
         return False
-    no_inline, known = _anchors()
+    no_inline, known, _recs = _anchors()
     return plain_name(g) not in known and plain_name(g) not in no_inline
+
+
+def inlinable_special(g):
+    """constructor / destructor of a class that is not part of the reference tree (an RAII helper introduced later)"""
+    if g is None or g.invalid or not g.d.get("inrepo", True) or g.entry is None or g.kind not in ("ctor", "dtor"):
+        return False
+    if g.defaulted or len(g.stmts) > MAX_STMTS or not g.file.startswith(GMLC_PREFIX()):
+        return False
+    return bool(g.rec) and g.rec not in _anchors()[2]
 
 
 def standalone(g):
@@ -84,9 +95,21 @@ def _call_sites(f):
     base = getattr(f, "orig", f)
     for bid, blk in f.blocks.items():
         for i, e in enumerate(blk.elems):
+            if e["k"] == "AD" and not e.get("inlined_dtor"):
+                g = f.unit.fn_by_id.get((e.get("dtor") or {}).get("id"))
+                if inlinable_special(g) and e.get("var"):
+                    out.append((bid, i, e, g, "dtor", e["var"]))
+                continue
             if e["k"] != "S":
                 continue
             st = f.stmts.get(e["s"])
+            if st is not None and st["k"] in ("CXXConstructExpr", "CXXTemporaryObjectExpr") and not st.get("inlined_ctor"):
+                g = f.unit.fn_by_id.get((st.get("callee") or {}).get("id"))
+                if inlinable_special(g):
+                    var = _declared_var(f, st)
+                    if var is not None:
+                        out.append((bid, i, st, g, "ctor", var))
+                continue
             if st is None or st["k"] not in CALL_KINDS:
                 continue
             c = st.get("callee")
@@ -99,8 +122,27 @@ def _call_sites(f):
                 # a closure invoked where it was created: its call operator runs in this function's context
                 if g.lambda_parent != base.id and g.lambda_parent not in getattr(f, "inlined_ids", ()):
                     continue
-            out.append((bid, i, st, g))
+            out.append((bid, i, st, g, "call", None))
     return out
+
+
+def _declared_var(f, st):
+    """declaration info of the local variable a construct expression initialises, or None"""
+    cur = st
+    for _ in range(8):
+        par = f.par(cur)
+        if par is None:
+            return None
+        if par["k"] == "DeclStmt":
+            for d in par["decls"]:
+                if d.get("init") == cur["id"] and d.get("k") == "local" and not d.get("ref"):
+                    return {k: v for k, v in d.items() if k != "init"}
+            return None
+        if par["k"] in ("ExprWithCleanups", "CXXBindTemporaryExpr", "MaterializeTemporaryExpr", "ImplicitCastExpr", "CXXFunctionalCastExpr"):
+            cur = par
+            continue
+        return None
+    return None
 
 
 def has_inlinable_calls(f):
@@ -137,7 +179,7 @@ def inline(f, depth=0, stack=()):
 
 def _inline_once(cur, f, depth, stack, rnd):
     sites = _call_sites(cur) if depth < MAX_DEPTH else []
-    sites = [s for s in sites if s[3].id not in stack and s[3].id != f.id]
+    sites = [s_ for s_ in sites if s_[3].id not in stack and s_[3].id != f.id]
     if not sites:
         return cur
     d = copy.deepcopy(cur.d)
@@ -146,18 +188,18 @@ def _inline_once(cur, f, depth, stack, rnd):
     next_block = [max(blocks) + 1]
     counter = [0]
     by_block = {}
-    for bid, i, st, g in sites:
-        by_block.setdefault(bid, []).append((i, st, g))
+    for bid, i, st, g, mode, var in sites:
+        by_block.setdefault(bid, []).append((i, st, g, mode, var))
     for bid in sorted(by_block):
         # from the last element to the first so that indexes stay valid; the tail of a split block gets a new id, the head
         # keeps the old one, so earlier elements are still found in block `bid`
-        for i, st, g in sorted(by_block[bid], key=lambda x: -x[0]):
+        for i, st, g, mode, var in sorted(by_block[bid], key=lambda x: -x[0]):
             gi = g if g.is_lambda else inline(g, depth + 1, stack + (f.id,))
-            _splice(d, stmts, blocks, next_block, counter, bid, i, st["id"], gi, "r%d" % rnd)
+            _splice(d, stmts, blocks, next_block, counter, bid, i, st.get("id"), gi, "r%d" % rnd, mode, var)
     _renumber(d, blocks)
-    d["inlined_from"] = sorted(set(d.get("inlined_from", [])) | {g.qname for _b, _i, _s, g in sites})
-    d["inlined_ids"] = sorted(set(d.get("inlined_ids", [])) | {g.id for _b, _i, _s, g in sites} |
-                              {x for _b, _i, _s, g in sites for x in getattr(g, "inlined_ids", ())})
+    d["inlined_from"] = sorted(set(d.get("inlined_from", [])) | {x[3].qname for x in sites})
+    d["inlined_ids"] = sorted(set(d.get("inlined_ids", [])) | {x[3].id for x in sites} |
+                              {y for x in sites for y in getattr(x[3], "inlined_ids", ())})
     d["uid"] = f.id + "#i"
     nf = Function(d, f.unit)
     nf.orig = f
@@ -205,23 +247,29 @@ def _renumber(d, blocks):
     d["cfg"]["blocks"] = sorted(out, key=lambda b_: -b_["id"])
 
 
-def _splice(d, stmts, blocks, next_block, counter, bid, idx, call_id, g, rnd):
+def _splice(d, stmts, blocks, next_block, counter, bid, idx, call_id, g, rnd, mode="call", var=None):
     counter[0] += 1
     n = counter[0]
     pre = "%si%d_" % (rnd, n)
-    base_tag = g.name if not g.is_lambda else "lambda"
+    base_tag = g.name.replace("~", "dtor_") if not g.is_lambda else "lambda"
+    if mode == "ctor":
+        base_tag = "ctor_" + g.name
     cnt = d.setdefault("_tagcount", {})
     cnt[base_tag] = cnt.get(base_tag, 0) + 1
     # the second and later copies of one helper inside one function get numbered names: access paths are name based
     tag = "%s%s$" % (base_tag, "" if cnt[base_tag] == 1 else str(cnt[base_tag]))
-    call = stmts[call_id]
+    if mode == "dtor":
+        ad_elem = blocks[bid]["elems"][idx]
+        call = {"k": "AD", "f": g.file, "l": ad_elem.get("l"), "ch": []}
+    else:
+        call = stmts[call_id]
     gd = g.d
     idmap = {sid: pre + sid for sid in gd["stmts"]}
     loc = {"f": call.get("f"), "l": call.get("l"), "c": call.get("c")}
 
     # ---- arguments
     args = list(call.get("args", []))
-    obj = call.get("obj")
+    obj = call.get("obj") if mode == "call" else None
     if call["k"] == "CXXOperatorCallExpr" and g.rec and not gd.get("static"):
         obj = args[0] if args else None
         args = args[1:]
@@ -291,9 +339,17 @@ def _splice(d, stmts, blocks, next_block, counter, bid, idx, call_id, g, rnd):
         return sid
 
     # `this` of the helper (a closure body keeps the enclosing function's `this`)
+    this_decl = None
+    if mode in ("ctor", "dtor"):
+        # the object is the local variable being declared / going out of scope
+        vref = synth("DeclRefExpr", d=dict(var), t=var.get("type", ""), vk="l")
+        obj = vref
+        stmts_lookup = new_stmts
+    else:
+        stmts_lookup = stmts
     if g.rec and not g.is_lambda and not gd.get("static") and obj is not None:
-        ost = stmts.get(obj)
-        if not (ost is not None and _is_this(stmts, ost)):
+        ost = stmts_lookup.get(obj)
+        if not (ost is not None and mode == "call" and _is_this(stmts, ost)):
             ot = (ost or {}).get("t", "")
             if ot.rstrip().endswith("*"):
                 init = obj
@@ -302,7 +358,8 @@ def _splice(d, stmts, blocks, next_block, counter, bid, idx, call_id, g, rnd):
                 init = synth("UnaryOperator", op="&", t=ot + " *", vk="pr")
                 new_stmts[init]["ch"] = [obj]
                 ptype = ot + " *"
-            this_decl = {"id": pre + "this", "name": tag + "this", "k": "local", "ref": False, "type": ptype, "init": init, "inl": True}
+            this_decl = {"id": pre + "this", "name": tag + "this", "k": "local", "ref": False, "type": ptype, "init": init, "inl": True,
+                         "inl_this": True}
             b = synth("DeclStmt", decls=[this_decl])
             new_stmts[b]["ch"] = [init]
             binds.append(b)
@@ -342,25 +399,61 @@ def _splice(d, stmts, blocks, next_block, counter, bid, idx, call_id, g, rnd):
             ns["inl_return"] = True
     # the call expression becomes a transparent wrapper around the result; the helper's body hangs below it in the
     # statement tree, so that "inside this try block / loop / branch" holds for the inlined statements as well
-    call["inlined"] = g.qname
-    call["k_orig"] = call["k"]
     kids = list(binds)
     if gd.get("body") and pre + gd["body"] in new_stmts:
         kids.append(pre + gd["body"])
+    if mode == "ctor":
+        call["inlined_ctor"] = g.qname
+        call["ch"] = [c for c in call.get("ch", []) if c] + kids
+        ret_decl = None
+        rets = []
+    elif mode == "dtor":
+        ad_elem["inlined_dtor"] = g.qname
+        # lexically the destructor runs where the variable's scope ends: hang its body below the declaration, so that
+        # the enclosing try block / loop of the declaration is the enclosing one of the destructor's statements
+        for st_ in stmts.values():
+            if st_.get("k") == "DeclStmt" and any(dd.get("id") == var.get("id") for dd in st_.get("decls", [])):
+                st_["ch"] = [c for c in st_.get("ch", []) if c] + kids
+                break
+    if mode == "call":
+        call["inlined"] = g.qname
+        call["k_orig"] = call["k"]
     # the argument expressions are evaluated by the parameter bindings now (their parents), no longer by the call
     bound = {new_stmts[b]["decls"][0].get("init") for b in binds if new_stmts[b].get("decls")}
     bound |= {c2 for b in binds for c2 in new_stmts[b].get("ch", [])}
     rest = [c for c in call.get("ch", []) if c and c not in bound]
-    if ret_decl is not None:
-        ref = synth("DeclRefExpr", d=dict(ret_decl), t=ret_decl["type"], vk="l")
-        call["k"] = "ParenExpr"
-        call["ch"] = [ref] + kids + rest
-    else:
-        call["k"] = "NullStmt"
-        call["ch"] = kids + rest
-    call["inl_args"] = {"args": call.get("args"), "obj": call.get("obj")}
-    for key in ("args", "obj", "calleeExpr", "callee"):
-        call.pop(key, None)
+    if mode == "call":
+        if ret_decl is not None:
+            ref = synth("DeclRefExpr", d=dict(ret_decl), t=ret_decl["type"], vk="l")
+            call["k"] = "ParenExpr"
+            call["ch"] = [ref] + kids + rest
+        else:
+            call["k"] = "NullStmt"
+            call["ch"] = kids + rest
+        call["inl_args"] = {"args": call.get("args"), "obj": call.get("obj")}
+        for key in ("args", "obj", "calleeExpr", "callee"):
+            call.pop(key, None)
+    # member initialisers of an inlined constructor become assignments through `this`
+    init_stmt = {}
+    if mode == "ctor" and this_decl is not None:
+        for blk in gd["cfg"]["blocks"]:
+            for e in blk["elems"]:
+                if e["k"] == "I" and e.get("field") and e.get("init"):
+                    tref = synth("DeclRefExpr", d={k_: v_ for k_, v_ in this_decl.items() if k_ != "init"}, t=this_decl["type"], vk="l")
+                    ftype = e.get("type", "")
+                    if not ftype:
+                        for r_ in g.unit.records:
+                            if r_.qname == g.recq and r_.field(e["field"]):
+                                ftype = r_.field(e["field"])["type"]
+                    lhs = synth("MemberExpr", arrow=True, base=tref, t=ftype, vk="l",
+                                m={"name": e["field"], "is_field": True, "rec": g.rec, "recq": g.recq, "id": e.get("field_id"), "ftype": ftype})
+                    new_stmts[lhs]["ch"] = [tref]
+                    rhs = idmap.get(e["init"], e["init"])
+                    asg = synth("BinaryOperator", op="=", t=ftype, inl_init=True)
+                    new_stmts[asg]["ch"] = [lhs, rhs]
+                    init_stmt[id(e)] = asg
+                    if ftype.rstrip().endswith("&"):
+                        d.setdefault("inl_member_refs", {})["l:%s.%s" % (var["name"], e["field"])] = rhs
     stmts.update(new_stmts)
 
     # ---- splice the CFG
@@ -376,11 +469,12 @@ def _splice(d, stmts, blocks, next_block, counter, bid, idx, call_id, g, rnd):
     next_block[0] += 1
     bmap[g_exit] = cont
     B = blocks[bid]
-    tail = {"id": cont, "elems": B["elems"][idx:], "succs": B["succs"], "reach": B.get("reach", [True] * len(B["succs"])),
+    cut = idx + 1 if mode == "ctor" else idx        # a constructor body runs right after the construct expression
+    tail = {"id": cont, "elems": B["elems"][cut:], "succs": B["succs"], "reach": B.get("reach", [True] * len(B["succs"])),
             "noreturn": B.get("noreturn", False)}
     if B.get("term"):
         tail["term"] = B["term"]
-    B["elems"] = B["elems"][:idx] + [{"k": "S", "s": b} for b in binds]
+    B["elems"] = B["elems"][:cut] + [{"k": "S", "s": b} for b in binds]
     B["succs"] = [bmap[g_entry]]
     B["reach"] = [True]
     B.pop("term", None)
@@ -393,8 +487,14 @@ def _splice(d, stmts, blocks, next_block, counter, bid, idx, call_id, g, rnd):
         nb["id"] = bmap[old]
         nb["succs"] = [bmap.get(s_) if s_ is not None else None for s_ in blk["succs"]]
         elems = []
-        for e in blk["elems"]:
+        src_blk = next(b_ for b_ in gd["cfg"]["blocks"] if b_["id"] == old)
+        for e0, e in zip(src_blk["elems"], blk["elems"]):
+            if e["k"] == "I" and id(e0) in init_stmt:
+                elems.append({"k": "S", "s": init_stmt[id(e0)]})
+                continue
             e2 = dict(e)
+            if e2["k"] == "MD" and this_decl is not None:
+                e2["obj_name"] = var["name"] if var else None
             if "s" in e2:
                 e2["s"] = idmap.get(e2["s"], e2["s"])
             if "init" in e2:
